@@ -77,9 +77,9 @@ def gen_blacklist(g):
             parts.add(ast.unparse(e))
     collect(asg[0].value)
     for want in ("constants.BUILTIN_FUNCTIONS", "constants.PYTHON_KEYWORDS", "tracing.get_imported_names(ast_tree)", "tracing.get_defined_names(ast_tree)"):
-        g.oblige("table", f"never-renamed-to:{want}", [], z3.BoolVal(want in parts), asg[0].lineno)
+        g.oblige_text("table", f"never-renamed-to:{want}", want in parts, asg[0].lineno)
     filt = [n for n in ast.walk(fn) if isinstance(n, ast.DictComp) and "blacklisted_names.isdisjoint(substitutes)" in ast.unparse(n) and "len(substitutes) == 1" in ast.unparse(n)]
-    g.oblige("table", "ambiguous-or-blacklisted-substitutes-are-dropped", [], z3.BoolVal(len(filt) == 1), asg[0].lineno)
+    g.oblige_text("table", "ambiguous-or-blacklisted-substitutes-are-dropped", len(filt) == 1, asg[0].lineno)
     # the all-or-nothing / free-name guard: one `if` over every renamed name whose body removes the name's nodes from `renamings`
     guard = None
     for n in ast.walk(fn):
@@ -103,11 +103,11 @@ def gen_blacklist(g):
     cm = [n for n in ast.walk(fn) if isinstance(n, ast.Assign) and ast.unparse(n.targets[0]) == "class_members"]
     okc = len(cm) == 1 and isinstance(cm[0].value, ast.SetComp) and ast.unparse(cm[0].value.generators[0].iter) in ("core.walk(ast_tree, ast.ClassDef)", "ast.walk(ast_tree)") \
         and any("ast.walk(" in ast.unparse(gen_.iter) for gen_ in cm[0].value.generators[1:])
-    g.oblige("table", "class-members-are-collected-from-every-class-and-every-target-name", [], z3.BoolVal(bool(okc)), (cm[0] if cm else fn).lineno if False else fn.lineno)
+    g.oblige_text("table", "class-members-are-collected-from-every-class-and-every-target-name", bool(okc), (cm[0] if cm else fn).lineno if False else fn.lineno)
     top = guard.test.values if isinstance(guard.test, ast.BoolOp) and isinstance(guard.test.op, ast.Or) else [guard.test]
-    g.oblige("table", "guard-is-a-disjunction-of-refusal-conditions", [], z3.BoolVal(isinstance(guard.test, ast.BoolOp) and isinstance(guard.test.op, ast.Or)), guard.lineno)
+    g.oblige_text("table", "guard-is-a-disjunction-of-refusal-conditions", isinstance(guard.test, ast.BoolOp) and isinstance(guard.test.op, ast.Or), guard.lineno)
     for label, frag in conds.items():
-        g.oblige("table", f"refuses-unless:{label}", [], z3.BoolVal(frag in test and not any(isinstance(v, ast.UnaryOp) and frag in ast.unparse(v) for v in top)), guard.lineno)
+        g.oblige_text("table", f"refuses-unless:{label}", frag in test and not any(isinstance(v, ast.UnaryOp) and frag in ast.unparse(v) for v in top), guard.lineno)
     from pyvc.unit import module_source
     ctext, ctree = module_source("constants")
     import builtins
